@@ -12,9 +12,9 @@ use std::collections::hash_map::RandomState;
 use std::hash::{BuildHasher, Hash, Hasher};
 use std::sync::Arc;
 use std::cell::Cell;
-use zipora::containers::specialized::{EasyHashMap, GoldHashIdx, HashStrMap, SmallMap};
+use zipora::containers::specialized::{EasyHashMap, EasyHashMapBuilder, GoldHashIdx, HashStrMap, SmallMap};
 use zipora::hash_map::{
-    advanced_hash_combine, bmi2_hash_combine_u64, extract_bucket_with_bmi2, extract_hash_bucket_bmi2, fabo_hash_combine_u32, fabo_hash_combine_u64,
+    advanced_hash_combine, bmi2_hash_combine_u32, bmi2_hash_combine_u64, golden_ratio_next_size, optimal_bucket_count, extract_bucket_with_bmi2, extract_hash_bucket_bmi2, fabo_hash_combine_u32, fabo_hash_combine_u64,
     fast_string_hash_bmi2, get_global_bmi2_dispatcher, hash_combine_with_bmi2, hash_with_bmi2, specialized, CombineStrategy, GoldHashMap,
     GoldHashMapConfig, HashCombinable, HashFunctionBuilder, HashStrategy, IterationStrategy, OptimizationStrategy, StorageStrategy, ZiporaHashMap,
     ZiporaHashMapConfig,
@@ -72,7 +72,7 @@ const PROFILES: &[&str] = &["ident", "zero", "max", "collide", "low2", "random",
 /// function the caller supplies".  Computed afresh for every call: a map only works if they are functions.
 fn lib_hash(id: u32) -> u64 {
     let x = id as u64;
-    match id % 12 {
+    match id % 16 {
         0 => fabo_hash_combine_u64(x.wrapping_mul(0x9E3779B97F4A7C15), x),
         1 => bmi2_hash_combine_u64(0, x),
         2 => advanced_hash_combine(&[x, x ^ 0x5555, 3]),
@@ -84,7 +84,14 @@ fn lib_hash(id: u32) -> u64 {
         8 => specialized::hash_tuple_bmi2(id, 5u32),
         9 => fast_string_hash_bmi2(&format!("k{id}"), 0),
         10 => (HashFunctionBuilder::new().with_strategy(CombineStrategy::Advanced).build_u32()(id, 9) as u64) << 7 | fabo_hash_combine_u32(id, 1) as u64,
-        _ => x.fabo_combine(specialized::hash_float_bmi2(id as f64)) ^ specialized::hash_string_bmi2(&format!("s{id}")),
+        11 => x.fabo_combine(specialized::hash_float_bmi2(id as f64)) ^ specialized::hash_string_bmi2(&format!("s{id}")),
+        12 => {
+            let d = get_global_bmi2_dispatcher();
+            d.hash_with_acceleration(id.to_le_bytes()) ^ ((d.extract_bucket_optimal(x.wrapping_mul(0x9E37), 20) as u64) << 32)
+        }
+        13 => (bmi2_hash_combine_u32(id, 77) as u64) << 32 | id.fabo_combine(3) as u64,
+        14 => HashFunctionBuilder::default().with_strategy(CombineStrategy::Bmi2).build_u64()(x, x) ^ HashFunctionBuilder::new().with_strategy(CombineStrategy::Fabo).build_u64()(1, x),
+        _ => HashFunctionBuilder::new().with_rotation(63).with_strategy(CombineStrategy::Addition).build_u64()(x, 2),
     }
 }
 fn hash_of(profile: &str, id: u32) -> u64 {
@@ -341,8 +348,14 @@ impl<L: zipora::hash_map::LinkType> Subj for Gold<L> {
     fn extra(&mut self, name: &str, x: &XArgs) -> Option<Value> {
         Some(match name {
             "reserve" => {
-                let ok = self.m.reserve(x.n).is_ok();
-                maint_ev("reserve", json!({"n": x.n, "ok": ok}))
+                // the library's own sizing functions supply every second argument
+                let n = match x.n % 3 {
+                    0 => x.n,
+                    1 => golden_ratio_next_size(x.n).min(100_000),
+                    _ => optimal_bucket_count(x.n).min(100_000),
+                };
+                let ok = self.m.reserve(n).is_ok();
+                maint_ev("reserve", json!({"n": n, "ok": ok}))
             }
             "revoke_deleted" => {
                 let ok = self.m.revoke_deleted().is_ok();
@@ -703,8 +716,24 @@ fn skey_id(s: &str) -> u32 {
     }
 }
 
+/// byte-string keys for the FastStr entry points of HashStrMap: every third key is not valid UTF-8;
+/// the lossy images of the keys are pairwise distinct
+fn bkey(id: u32) -> Vec<u8> {
+    match id % 3 {
+        0 => format!("b{id}").into_bytes(),
+        1 => format!("\u{00fc}\u{00df}/{id}").into_bytes(),
+        _ => {
+            let mut v = vec![0xff, 0xc0];
+            v.extend_from_slice(format!("{id}").as_bytes());
+            v
+        }
+    }
+}
+
 struct StrMap {
     m: HashStrMap<u32>,
+    /// keys are byte strings (bkey) given as FastStr; the &str entry points get the lossy image
+    bytes: bool,
     /// go through the twins of insert / get / contains_key / clear
     twins: bool,
     n: Cell<u32>,
@@ -717,8 +746,31 @@ impl StrMap {
         n
     }
 }
+impl StrMap {
+    fn key(&self, k: u32) -> String {
+        if self.bytes {
+            String::from_utf8_lossy(&bkey(k)).into_owned()
+        } else {
+            skey(k)
+        }
+    }
+    fn key_id(&self, s: &str) -> u32 {
+        if !self.bytes {
+            return skey_id(s);
+        }
+        let digits: String = s.chars().rev().take_while(|c| c.is_ascii_digit()).collect::<Vec<_>>().into_iter().rev().collect();
+        match digits.parse::<u32>() {
+            Ok(id) if String::from_utf8_lossy(&bkey(id)) == s => id,
+            _ => 999_999_999,
+        }
+    }
+}
 impl Subj for StrMap {
     fn insert(&mut self, k: u32, v: u32) -> Option<Result<Option<u32>, ()>> {
+        if self.bytes {
+            self.last.set(Some("insert_fast_str"));
+            return Some(self.m.insert_fast_str(FastStr::new(&bkey(k)), v).map_err(|_| ()));
+        }
         let key = skey(k);
         if !self.twins {
             return Some(self.m.insert(&key, v).map_err(|_| ()));
@@ -739,28 +791,37 @@ impl Subj for StrMap {
         })
     }
     fn get(&self, k: u32) -> Option<u32> {
-        let key = skey(k);
-        if self.twins {
+        let key = self.key(k);
+        if self.twins && !self.bytes {
             self.last.set(Some("get_by_fast_str"));
             self.m.get_by_fast_str(&FastStr::from_string(&key)).copied()
         } else {
+            self.last.set(None);
             self.m.get(&key).copied()
+        }
+    }
+    fn get_op(&self, k: u32) -> Option<u32> {
+        if self.bytes {
+            self.last.set(Some("get_by_fast_str"));
+            self.m.get_by_fast_str(&FastStr::new(&bkey(k))).copied()
+        } else {
+            self.get(k)
         }
     }
     fn get_mut(&mut self, k: u32, newv: u32) -> Option<Option<u32>> {
         self.last.set(None);
-        Some(self.m.get_mut(&skey(k)).map(|r| std::mem::replace(r, newv)))
+        Some(self.m.get_mut(&self.key(k)).map(|r| std::mem::replace(r, newv)))
     }
     fn remove(&mut self, k: u32) -> Result<Option<u32>, ()> {
         self.last.set(None);
-        Ok(self.m.remove(&skey(k)))
+        Ok(self.m.remove(&self.key(k)))
     }
     fn contains(&self, k: u32) -> bool {
         if self.twins {
             self.last.set(Some("is_interned"));
-            self.m.is_interned(&skey(k))
+            self.m.is_interned(&self.key(k))
         } else {
-            self.m.contains_key(&skey(k))
+            self.m.contains_key(&self.key(k))
         }
     }
     fn len(&self) -> usize {
@@ -770,7 +831,7 @@ impl Subj for StrMap {
         Some(self.m.is_empty())
     }
     fn iter(&self) -> Option<Vec<(u32, u32)>> {
-        Some(self.m.iter().map(|(k, v)| (skey_id(k), *v)).collect())
+        Some(self.m.iter().map(|(k, v)| (self.key_id(k), *v)).collect())
     }
     fn clear(&mut self) -> bool {
         if self.twins {
@@ -796,7 +857,7 @@ impl Subj for StrMap {
                 self.m.shrink_to_fit();
                 maint_ev("shrink_to_fit", json!({}))
             }
-            "keys" => json!({"op":"keys","r":self.m.keys().map(|k| skey_id(k)).collect::<Vec<u32>>()}),
+            "keys" => json!({"op":"keys","r":self.m.keys().map(|k| self.key_id(k)).collect::<Vec<u32>>()}),
             "values" => json!({"op":"values","r":self.m.values().copied().collect::<Vec<u32>>()}),
             _ => return None,
         })
@@ -908,11 +969,12 @@ fn subjects() -> Vec<String> {
     v.push("easy:builder_cap100_lf10@random".into());
     v.push("easy:from_iter@random".into());
     v.push("hashstr:twins".into());
+    v.push("hashstr:faststr_bytes".into());
     v
 }
 
 /// subjects of the coverage round that share their code path with an older subject: they skip the
-/// 1500-key regime of the random driver and take every 4th TLC-generated history
+/// 1500-key regime of the random driver (quick tier) and take every 4th (thorough: 2nd) TLC-generated history
 fn is_light(name: &str) -> bool {
     const LIGHT: &[&str] = &[
         "zhm:default@libmix",
@@ -940,6 +1002,7 @@ fn is_light(name: &str) -> bool {
         "idx:with_capacity_100@low2",
         "small:u8_fast",
         "easy:with_default@random",
+        "hashstr:faststr_bytes",
     ];
     LIGHT.contains(&name)
 }
@@ -975,7 +1038,7 @@ fn make(name: &str) -> Option<Box<dyn Subj>> {
     Some(match fam {
         "zhm" => match var {
             "default" => return zp(ZiporaHashMapConfig::default(), prof, false),
-            "default_clone" => return zp(ZiporaHashMapConfig::default(), prof, true),
+            "default_clone" => Box::new(Zhm { m: ZiporaHashMap::<HK, u32, PassThrough>::default(), p: prof, cloner: Some(|m| m.clone()) }),
             "default_random_state" => Box::new(Zhm { m: ZiporaHashMap::<HK, u32, RandomState>::new().ok()?, p: prof, cloner: None }),
             "with_capacity_4" => Box::new(Zhm { m: ZiporaHashMap::<HK, u32, PassThrough>::with_capacity(4).ok()?, p: prof, cloner: None }),
             "with_capacity_0" => Box::new(Zhm { m: ZiporaHashMap::<HK, u32, PassThrough>::with_capacity(0).ok()?, p: prof, cloner: None }),
@@ -1130,7 +1193,9 @@ fn make(name: &str) -> Option<Box<dyn Subj>> {
                 }
                 _ => return None,
             };
-            if fam == "gold32" {
+            if var == "toggle_all" {
+                Box::new(Gold { m: GoldHashMap::<HK, u32, u32>::new(), p: prof, strat, revoke, fast_default, toggle })
+            } else if fam == "gold32" {
                 let mut m = GoldHashMap::<HK, u32, u32>::with_config(cfg);
                 if var == "toggle_hash_cache" {
                     m.set_hash_caching(true);
@@ -1150,7 +1215,7 @@ fn make(name: &str) -> Option<Box<dyn Subj>> {
         "small" => match var {
             "u32" => Box::new(Small::<u32> { m: SmallMap::new(), conv: |x| x, back: |k| *k, fast: None }),
             "u8" => Box::new(Small::<u8> { m: SmallMap::new(), conv: |x| x as u8, back: |k| *k as u32, fast: None }),
-            "u8_fast" => Box::new(Small::<u8> { m: SmallMap::new(), conv: |x| x as u8, back: |k| *k as u32, fast: Some(|m, k| m.get_fast(k).copied()) }),
+            "u8_fast" => Box::new(Small::<u8> { m: SmallMap::default(), conv: |x| x as u8, back: |k| *k as u32, fast: Some(|m, k| m.get_fast(k).copied()) }),
             "u64" => Box::new(Small::<u64> { m: SmallMap::new(), conv: |x| (x as u64) << 33 | x as u64, back: |k| *k as u32, fast: None }),
             "i32" => Box::new(Small::<i32> { m: SmallMap::new(), conv: |x| -(x as i32), back: |k| (-*k) as u32, fast: None }),
             _ => return None,
@@ -1163,7 +1228,7 @@ fn make(name: &str) -> Option<Box<dyn Subj>> {
                 "builder_default_lf95_nogrow" => {
                     (EasyHashMap::<HK, u32>::with_default_value(5).with_capacity(16).auto_grow(false).max_load_factor(7.0).build(), Some(5), vec![])
                 }
-                "builder_cap100_lf10" => (EasyHashMap::<HK, u32>::initial_capacity(100).max_load_factor(0.0).build(), None, vec![]),
+                "builder_cap100_lf10" => (EasyHashMapBuilder::<HK, u32>::default().with_capacity(100).max_load_factor(0.0).build(), None, vec![]),
                 "from_iter" => {
                     let init = vec![(0u32, 1u32), (1, 2), (0, 3), (2, 4)];
                     let p = prof.clone();
@@ -1175,9 +1240,10 @@ fn make(name: &str) -> Option<Box<dyn Subj>> {
             Box::new(Easy { m, p: prof, default, init })
         }
         "hashstr" => match var {
-            "new" => Box::new(StrMap { m: HashStrMap::new(), twins: false, n: Cell::new(0), last: Cell::new(None) }),
-            "with_capacity_1" => Box::new(StrMap { m: HashStrMap::with_capacity(1), twins: false, n: Cell::new(0), last: Cell::new(None) }),
-            "twins" => Box::new(StrMap { m: HashStrMap::default(), twins: true, n: Cell::new(0), last: Cell::new(None) }),
+            "new" => Box::new(StrMap { m: HashStrMap::new(), bytes: false, twins: false, n: Cell::new(0), last: Cell::new(None) }),
+            "with_capacity_1" => Box::new(StrMap { m: HashStrMap::with_capacity(1), bytes: false, twins: false, n: Cell::new(0), last: Cell::new(None) }),
+            "twins" => Box::new(StrMap { m: HashStrMap::default(), bytes: false, twins: true, n: Cell::new(0), last: Cell::new(None) }),
+            "faststr_bytes" => Box::new(StrMap { m: HashStrMap::new(), bytes: true, twins: true, n: Cell::new(0), last: Cell::new(None) }),
             _ => return None,
         },
         _ => return None,
@@ -1653,13 +1719,39 @@ fn replay(a: &Args) {
     let mut per_subject = serde_json::Map::new();
     let (mut total_exec, mut events, mut runs) = (0usize, 0usize, 0usize);
     let mut files = vec![];
-    for (name, v, ex, ev, ru, f) in results.into_inner().unwrap() {
+    // The sampled traces of subjects on which every history matched TLC's values are pooled into few
+    // files (TLC's start-up dominates small files); a subject with mismatching histories keeps its own
+    // files, so that it can be re-validated alone.
+    let mut res = results.into_inner().unwrap();
+    res.sort_by(|x, y| x.0.cmp(&y.0));
+    let mut pool: Option<std::fs::File> = None;
+    let (mut pooled_lines, mut pool_no) = (0usize, 0usize);
+    for (name, v, ex, ev, ru, f) in res {
+        let clean = v["mismatching"] == json!(0);
         per_subject.insert(name, v);
         total_exec += ex;
         events += ev;
         runs += ru;
-        files.extend(f);
+        if !clean {
+            files.extend(f);
+            continue;
+        }
+        for path in f {
+            let text = std::fs::read_to_string(&path).unwrap_or_default();
+            if pool.is_none() || pooled_lines >= 9000 {
+                let p = a.out.join(format!("mapb2-pool-{pool_no:04}.ndjson"));
+                pool_no += 1;
+                pooled_lines = 0;
+                pool = Some(std::fs::File::create(&p).expect("create pool file"));
+                files.push(p.display().to_string());
+            }
+            use std::io::Write;
+            pool.as_mut().unwrap().write_all(text.as_bytes()).expect("write pool file");
+            pooled_lines += text.lines().count();
+            let _ = std::fs::remove_file(&path);
+        }
     }
+    drop(pool);
     write_summary(&a.out, &json!({"mode":"replay","behaviours":behaviours.len(),"executions":total_exec,"events":events,"runs":runs,
         "files":files,"subjects":per_subject}));
 }
@@ -1668,8 +1760,11 @@ fn replay_subject(a: &Args, name: &str, idx: usize, behaviours: &[Value]) -> (St
     let mut tr = Tracer::new(&a.out, &format!("mapb2-{idx:03}"));
     tr.max_events = 4000;
     let mut rng = Rng::new(a.seed).derive("b2sample").derive(name);
-    let light = is_light(name) && !a.thorough();
-    let stride = if light { 4 } else { 1 };
+    let stride = match (is_light(name), a.thorough()) {
+        (true, false) => 4,
+        (true, true) => 2,
+        _ => 1,
+    };
     let sample_every = (a.get_u64("sample", 200) / stride as u64).max(1);
     let max_mismatch_traces = a.get_u64("max_mismatch", 150) as usize;
     let kid = |s: &Value| -> u32 { s.as_str().map(|x| x[1..].parse::<u32>().unwrap_or(1) - 1).unwrap_or(0) };
